@@ -127,7 +127,12 @@ func (d *wrappedSlidingWindowDetector) Check(seq uint64) (func() bool, bool) {
 			d.latestSeq = seq
 			latest = true
 		}
-		d.mask.SetBit(uint(d.latestSeq - seq))
+		pos := uint(0)
+		if diff > 0 {
+			// seq is behind the newest number, possibly across the wrap-around
+			pos = uint(diff)
+		}
+		d.mask.SetBit(pos)
 
 		return latest
 	}, true
